@@ -266,6 +266,53 @@ func fontSet(thorough bool) []fontSpec {
 			// whether the result really aliases post.macRoman is reported by `c16 fonts`
 			return f, nil
 		})})
+	// every slice with spare capacity, neighbouring slices cut from one array (spare.go)
+	withSpare := func(mk func() (*sfnt.Font, error)) func() (*sfnt.Font, error) {
+		return func() (*sfnt.Font, error) {
+			f, err := mk()
+			if err == nil {
+				spareCapacity(f)
+			}
+			return f, err
+		}
+	}
+	byID := map[string]fontSpec{}
+	for _, fs := range res {
+		byID[fs.ID] = fs
+	}
+	spared := []string{"deg", "lkrt", "rt1", "cid3rt"}
+	if thorough {
+		spared = append(spared, "degc", "lkcrt", "rt0", "rt2", "rt4", "rt7", "goregular")
+	}
+	for _, id := range spared {
+		if fs, ok := byID[id]; ok {
+			res = append(res, fontSpec{ID: id + "sp", Desc: "every slice with spare capacity and a sentinel, neighbouring slices cut from one array: " + fs.Desc,
+				build: withSpare(fs.build)})
+		}
+	}
+	// read from a file with non-canonical ignored fields (cmap language fields, padding)
+	nc := func(id string, mk func() (*sfnt.Font, error)) fontSpec {
+		return fontSpec{ID: id + "nc", Desc: "read from a file whose cmap language fields and padding bytes are non-zero: " + byID[id].Desc,
+			build: func() (*sfnt.Font, error) {
+				f, err := mk()
+				if err != nil {
+					return nil, err
+				}
+				var buf bytes.Buffer
+				if _, err := f.Write(&buf); err != nil {
+					return nil, err
+				}
+				data, n, err := nonCanonical(buf.Bytes())
+				if err != nil || n == 0 {
+					return nil, fmt.Errorf("nonCanonical: %d fields patched, %v", n, err)
+				}
+				return sfnt.Read(bytes.NewReader(data))
+			}}
+	}
+	res = append(res, nc("mk0", byID["mk0"].build))
+	if thorough {
+		res = append(res, nc("mk1", byID["mk1"].build), nc("cid3", byID["cid3"].build), nc("lk", byID["lk"].build))
+	}
 	res = append(res, catalogFonts()...)
 	return res
 }
